@@ -838,11 +838,18 @@ func (r Stack) Reset() {
 reset is a private method called by [Stack.Reset].
 */
 func (r *stack) reset() {
-	var ct int = 0
-	for i := r.ulen(); i > 0; i-- {
-		ct++
-		r.remove(i - 1)
+	if r.ulen() == 0 {
+		return
 	}
+
+	cfg, _ := r.config()
+
+	r.lock()
+	defer r.unlock()
+
+	// drop every slice, nil ones included,
+	// keeping only the configuration slice
+	*r = append(make(stack, 0), cfg)
 }
 
 /*
